@@ -48,23 +48,23 @@ pub fn dl<const OP: u8>() {
             v0.push(D(1));
             v0.push(D(2));
             let mut vo: Option<BVec<D>> = Some(v0);
-            assert!(DROPS[0] == 0 && DROPS[1] == 0 && DROPS[2] == 0, "[C15] element dropped while it is being stored");
+            vassert!(DROPS[0] == 0 && DROPS[1] == 0 && DROPS[2] == 0, "NEVER: [C15] element dropped while it is being stored");
             let i: usize = kani::any();
             let j: usize = kani::any();
             match OP {
                 D_POP => {
                     let v = vo.as_mut().unwrap();
                     let x = v.pop().unwrap();
-                    assert!(x.0 == 2 && DROPS[2] == 0, "[C15] popped value already dropped (or wrong value)");
+                    vassert!(x.0 == 2 && DROPS[2] == 0, "NEVER: [C15] popped value already dropped (or wrong value)");
                     drop(x);
-                    assert!(DROPS[2] == 1, "[C15] moved-out value not dropped by the caller exactly once");
+                    vassert!(DROPS[2] == 1, "NEVER: [C15] moved-out value not dropped by the caller exactly once");
                 }
                 D_REMOVE | D_SWAP_REMOVE => {
                     kani::assume(i < 3);
                     let v = vo.as_mut().unwrap();
                     let x = if OP == D_REMOVE { v.remove(i) } else { v.swap_remove(i) };
-                    assert!(x.0 as usize == i && DROPS[i] == 0, "[C15] removed value already dropped (or wrong value)");
-                    assert!(DROPS[0] + DROPS[1] + DROPS[2] == 0, "[C15] remove dropped an element that stays in the vector");
+                    vassert!(x.0 as usize == i && DROPS[i] == 0, "NEVER: [C15] removed value already dropped (or wrong value)");
+                    vassert!(DROPS[0] + DROPS[1] + DROPS[2] == 0, "NEVER: [C15] remove dropped an element that stays in the vector");
                     drop(x);
                 }
                 D_TRUNCATE => {
@@ -72,13 +72,13 @@ pub fn dl<const OP: u8>() {
                     vo.as_mut().unwrap().truncate(i);
                     let mut k = 0;
                     while k < 3 {
-                        assert!(DROPS[k] == if k >= i { 1 } else { 0 }, "[C15] truncate dropped the wrong set of elements");
+                        vassert!(DROPS[k] == if k >= i { 1 } else { 0 }, "NEVER: [C15] truncate dropped the wrong set of elements");
                         k += 1;
                     }
                 }
                 D_CLEAR => {
                     vo.as_mut().unwrap().clear();
-                    assert!(DROPS[0] == 1 && DROPS[1] == 1 && DROPS[2] == 1, "[C15] clear did not drop every element once");
+                    vassert!(DROPS[0] == 1 && DROPS[1] == 1 && DROPS[2] == 1, "NEVER: [C15] clear did not drop every element once");
                 }
                 D_DRAIN | D_FORGET_DRAIN => {
                     kani::assume(i <= j && j <= 3);
@@ -89,7 +89,7 @@ pub fn dl<const OP: u8>() {
                     let mut k = 0;
                     while k < take {
                         if let Some(x) = d.next() {
-                            assert!(DROPS[x.0 as usize] == 0, "[C15] drained item already dropped");
+                            vassert!(DROPS[x.0 as usize] == 0, "NEVER: [C15] drained item already dropped");
                             drop(x);
                         }
                         k += 1;
@@ -106,7 +106,7 @@ pub fn dl<const OP: u8>() {
                         drop(d);
                         let mut k = i;
                         while k < j {
-                            assert!(DROPS[k] == 1, "[C15] drained range not dropped exactly once after Drain was dropped");
+                            vassert!(DROPS[k] == 1, "NEVER: [C15] drained range not dropped exactly once after Drain was dropped");
                             k += 1;
                         }
                     }
@@ -114,34 +114,33 @@ pub fn dl<const OP: u8>() {
                 D_INTO_ITER => {
                     let front: usize = kani::any();
                     let back_n: usize = kani::any();
-                    kani::assume(front + back_n <= 3);
+                    kani::assume(front <= 3 && back_n <= 3 && front + back_n <= 3);
                     let mut it = vo.take().unwrap().into_iter();
                     let mut k = 0;
                     while k < front {
                         let x = it.next().unwrap();
-                        assert!(x.0 as usize == k && DROPS[k] == 0, "[C15] into_iter item already dropped (or out of order)");
+                        vassert!(x.0 as usize == k && DROPS[k] == 0, "NEVER: [C15] into_iter item already dropped (or out of order)");
                         drop(x);
                         k += 1;
                     }
                     k = 0;
                     while k < back_n {
                         let x = it.next_back().unwrap();
-                        assert!(x.0 as usize == 2 - k && DROPS[2 - k] == 0, "[C15] into_iter back item already dropped (or out of order)");
+                        vassert!(x.0 as usize == 2 - k && DROPS[2 - k] == 0, "NEVER: [C15] into_iter back item already dropped (or out of order)");
                         drop(x);
                         k += 1;
                     }
                     drop(it);
-                    assert!(DROPS[0] == 1 && DROPS[1] == 1 && DROPS[2] == 1, "[C15] IntoIter did not drop the remainder exactly once");
-                    assert!(all_le_one(), "[C15] a value was dropped twice");
-                    kani::cover!(front == 1 && back_n == 1, "REACH: partially consumed from both ends");
-                    return;
+                    vassert!(DROPS[0] == 1 && DROPS[1] == 1 && DROPS[2] == 1, "NEVER: [C15] IntoIter did not drop the remainder exactly once");
+                    vassert!(all_le_one(), "NEVER: [C15] a value was dropped twice");
+                    kani::cover!(front == 1 && back_n == 1, "INFO: partially consumed from both ends");
                 }
                 D_RETAIN => {
                     let mask: u8 = kani::any();
                     vo.as_mut().unwrap().retain(|d| (mask >> d.0) & 1 == 1);
                     let mut k = 0;
                     while k < 3 {
-                        assert!(DROPS[k] == if (mask >> k) & 1 == 1 { 0 } else { 1 }, "[C15] retain dropped the wrong set of elements");
+                        vassert!(DROPS[k] == if (mask >> k) & 1 == 1 { 0 } else { 1 }, "NEVER: [C15] retain dropped the wrong set of elements");
                         k += 1;
                     }
                 }
@@ -149,43 +148,42 @@ pub fn dl<const OP: u8>() {
                     // ids 0,1,2 with key id/2: 0 and 1 are duplicates, the later one (1) is removed
                     let v = vo.as_mut().unwrap();
                     v.dedup_by_key(|d| d.0 / 2);
-                    assert!(DROPS[0] == 0 && DROPS[1] == 1 && DROPS[2] == 0, "[C15] dedup dropped the wrong elements");
-                    assert!(v.len() == 2 && v[0].0 == 0 && v[1].0 == 2, "[C13] dedup kept the wrong elements");
+                    vassert!(DROPS[0] == 0 && DROPS[1] == 1 && DROPS[2] == 0, "NEVER: [C15] dedup dropped the wrong elements");
+                    vassert!(v.len() == 2 && v[0].0 == 0 && v[1].0 == 2, "NEVER: [C13] dedup kept the wrong elements");
                 }
                 D_SPLIT_OFF => {
                     kani::assume(i <= 3);
                     let t = vo.as_mut().unwrap().split_off(i);
-                    assert!(DROPS[0] + DROPS[1] + DROPS[2] == 0, "[C15] split_off dropped an element");
+                    vassert!(DROPS[0] + DROPS[1] + DROPS[2] == 0, "NEVER: [C15] split_off dropped an element");
                     drop(t);
                     let mut k = 0;
                     while k < 3 {
-                        assert!(DROPS[k] == if k >= i { 1 } else { 0 }, "[C15] dropping the split-off tail dropped the wrong elements");
+                        vassert!(DROPS[k] == if k >= i { 1 } else { 0 }, "NEVER: [C15] dropping the split-off tail dropped the wrong elements");
                         k += 1;
                     }
                 }
                 D_INTO_BOXED => {
                     let bx = vo.take().unwrap().into_boxed_slice();
-                    assert!(DROPS[0] + DROPS[1] + DROPS[2] == 0, "[C15,C17] into_boxed_slice dropped an element");
-                    assert!(bx.len() == 3 && bx[0].0 == 0 && bx[1].0 == 1 && bx[2].0 == 2, "[C17] into_boxed_slice changed the elements or their order");
+                    vassert!(DROPS[0] + DROPS[1] + DROPS[2] == 0, "NEVER: [C15,C17] into_boxed_slice dropped an element");
+                    vassert!(bx.len() == 3 && bx[0].0 == 0 && bx[1].0 == 1 && bx[2].0 == 2, "NEVER: [C17] into_boxed_slice changed the elements or their order");
                     drop(bx);
-                    assert!(DROPS[0] == 1 && DROPS[1] == 1 && DROPS[2] == 1, "[C15,C17] boxed slice did not drop every element once");
-                    return;
+                    vassert!(DROPS[0] == 1 && DROPS[1] == 1 && DROPS[2] == 1, "NEVER: [C15,C17] boxed slice did not drop every element once");
                 }
                 D_INTO_SLICE => {
                     let s = vo.take().unwrap().into_bump_slice();
-                    assert!(s.len() == 3 && s[1].0 == 1, "[C13] into_bump_slice changed the elements");
-                    assert!(DROPS[0] + DROPS[1] + DROPS[2] == 0, "[C15] into_bump_slice ran a destructor");
+                    vassert!(s.len() == 3 && s[1].0 == 1, "NEVER: [C13] into_bump_slice changed the elements");
+                    vassert!(DROPS[0] + DROPS[1] + DROPS[2] == 0, "NEVER: [C15] into_bump_slice ran a destructor");
                     want = [0, 0, 0];
                 }
                 _ => {}
             }
-            assert!(all_le_one(), "[C15] a value was dropped twice");
+            vassert!(all_le_one(), "NEVER: [C15] a value was dropped twice");
             // reachable elements are not dropped yet
             if let Some(v) = vo.as_ref() {
                 let mut k = 0;
                 while k < v.len() {
                     let id = v[k].0 as usize;
-                    assert!(DROPS[id] == 0, "[C15] a value still reachable through the vector has been dropped");
+                    vassert!(DROPS[id] == 0, "NEVER: [C15] a value still reachable through the vector has been dropped");
                     k += 1;
                 }
             }
@@ -194,22 +192,21 @@ pub fn dl<const OP: u8>() {
         let mut k = 0;
         while k < 3 {
             if want[k] == 2 {
-                assert!(DROPS[k] <= 1, "[C15] a value was dropped twice");
+                vassert!(DROPS[k] <= 1, "NEVER: [C15] a value was dropped twice");
             } else {
-                assert!(DROPS[k] == want[k], "[C15] element not dropped exactly once over the container's life");
+                vassert!(DROPS[k] == want[k], "NEVER: [C15] element not dropped exactly once over the container's life");
             }
             k += 1;
         }
         let w2 = [DROPS[0], DROPS[1], DROPS[2]];
         bump_reset_and_check(&mut bump, &w2);
-        kani::cover!(true, "REACH: end of harness");
     }
 }
 
 /// The arena's own reset never runs destructors.
 unsafe fn bump_reset_and_check(bump: &mut core::mem::ManuallyDrop<Bump>, want: &[u8; 3]) {
     bump.reset();
-    assert!(DROPS[0] == want[0] && DROPS[1] == want[1] && DROPS[2] == want[2], "[C15] arena reset ran (or re-ran) a destructor");
+    vassert!(DROPS[0] == want[0] && DROPS[1] == want[1] && DROPS[2] == want[2], "NEVER: [C15] arena reset ran (or re-ran) a destructor");
     kani::cover!(true, "REACH: end of harness");
 }
 
@@ -228,34 +225,34 @@ pub fn bx_basic() {
         let w: u32 = kani::any();
         let x = BBox::new_in(v, b);
         let y = BBox::new_in(w, b);
-        assert!(*x == v, "[C17] Box does not dereference to the value it was given");
-        assert!((x == y) == (v == w) && (x < y) == (v < w) && (x <= y) == (v <= w) && (x >= y) == (v >= w) && (x > y) == (v > w),
-                "[C17] Box comparison differs from the value's");
-        assert!(x.cmp(&y) == v.cmp(&w) && x.partial_cmp(&y) == v.partial_cmp(&w), "[C17] Box ordering differs from the value's");
+        vassert!(*x == v, "NEVER: [C17] Box does not dereference to the value it was given");
+        vassert!((x == y) == (v == w) && (x < y) == (v < w) && (x <= y) == (v <= w) && (x >= y) == (v >= w) && (x > y) == (v > w),
+                "NEVER: [C17] Box comparison differs from the value's");
+        vassert!(x.cmp(&y) == v.cmp(&w) && x.partial_cmp(&y) == v.partial_cmp(&w), "NEVER: [C17] Box ordering differs from the value's");
         // drop: destructor once, no arena memory released, finger unchanged
         let d = BBox::new_in(D(4), b);
         let p0 = c.cur_ptr() as usize;
-        assert!(d.0 == 4 && DROPS[4] == 0, "[C17] boxed value dropped early");
+        vassert!(d.0 == 4 && DROPS[4] == 0, "NEVER: [C17] boxed value dropped early");
         drop(d);
-        assert!(DROPS[4] == 1, "[C15,C17] Box drop did not run the destructor exactly once");
-        assert!(NDEALLOC == 0 && c.cur_ptr() as usize == p0, "[C17] Box drop released arena memory");
+        vassert!(DROPS[4] == 1, "NEVER: [C15,C17] Box drop did not run the destructor exactly once");
+        vassert!(NDEALLOC == 0 && c.cur_ptr() as usize == p0, "NEVER: [C17] Box drop released arena memory");
         // into_inner
         let e = BBox::new_in(D(5), b);
         let inner = BBox::into_inner(e);
-        assert!(inner.0 == 5 && DROPS[5] == 0, "[C15,C17] into_inner dropped or changed the value");
+        vassert!(inner.0 == 5 && DROPS[5] == 0, "NEVER: [C15,C17] into_inner dropped or changed the value");
         drop(inner);
-        assert!(DROPS[5] == 1, "[C15] value from into_inner not dropped exactly once");
+        vassert!(DROPS[5] == 1, "NEVER: [C15] value from into_inner not dropped exactly once");
         // into_raw / from_raw and leak
         let f = BBox::new_in(D(6), b);
         let raw = BBox::into_raw(f);
-        assert!(DROPS[6] == 0 && (*raw).0 == 6, "[C15,C17] into_raw dropped or changed the value");
+        vassert!(DROPS[6] == 0 && (*raw).0 == 6, "NEVER: [C15,C17] into_raw dropped or changed the value");
         let g = BBox::from_raw(raw);
-        assert!(g.0 == 6 && DROPS[6] == 0, "[C17] from_raw round trip changed the value");
+        vassert!(g.0 == 6 && DROPS[6] == 0, "NEVER: [C17] from_raw round trip changed the value");
         let l = BBox::leak(g);
-        assert!(l.0 == 6 && DROPS[6] == 0, "[C15,C17] leak ran the destructor");
+        vassert!(l.0 == 6 && DROPS[6] == 0, "NEVER: [C15,C17] leak ran the destructor");
         // pin_in
         let pn = BBox::pin_in(v, b);
-        assert!(*pn == v, "[C17] pinned box does not dereference to its value");
+        vassert!(*pn == v, "NEVER: [C17] pinned box does not dereference to its value");
         kani::cover!(v < w, "REACH: ordered values");
         kani::cover!(true, "REACH: end of harness");
     }
@@ -272,12 +269,12 @@ pub fn bx_partial_ord() {
         let w: f32 = kani::any();
         let x = BBox::new_in(v, b);
         let y = BBox::new_in(w, b);
-        assert!((x < y) == (v < w), "[C17] Box `<` differs from the value's");
-        assert!((x <= y) == (v <= w), "[C17] Box `<=` differs from the value's");
-        assert!((x > y) == (v > w), "[C17] Box `>` differs from the value's");
-        assert!((x >= y) == (v >= w), "[C17] Box `>=` differs from the value's");
-        assert!((x == y) == (v == w) && (x != y) == (v != w), "[C17] Box equality differs from the value's");
-        assert!(x.partial_cmp(&y) == v.partial_cmp(&w), "[C17] Box partial_cmp differs from the value's");
+        vassert!((x < y) == (v < w), "NEVER: [C17] Box `<` differs from the value's");
+        vassert!((x <= y) == (v <= w), "NEVER: [C17] Box `<=` differs from the value's");
+        vassert!((x > y) == (v > w), "NEVER: [C17] Box `>` differs from the value's");
+        vassert!((x >= y) == (v >= w), "NEVER: [C17] Box `>=` differs from the value's");
+        vassert!((x == y) == (v == w) && (x != y) == (v != w), "NEVER: [C17] Box equality differs from the value's");
+        vassert!(x.partial_cmp(&y) == v.partial_cmp(&w), "NEVER: [C17] Box partial_cmp differs from the value's");
         kani::cover!(v != v, "REACH: incomparable payload (NaN)");
     }
 }
@@ -300,18 +297,18 @@ pub fn bx_downcast() {
         };
         match any.downcast::<u32>() {
             Ok(x) => {
-                assert!(which && *x == v, "[C17] downcast succeeded for the wrong type or changed the value");
+                vassert!(which && *x == v, "NEVER: [C17] downcast succeeded for the wrong type or changed the value");
             }
             Err(back_box) => {
-                assert!(!which, "[C17] downcast failed for the matching type");
-                assert!(DROPS[1] == 0, "[C15,C17] failed downcast dropped the value");
+                vassert!(!which, "NEVER: [C17] downcast failed for the matching type");
+                vassert!(DROPS[1] == 0, "NEVER: [C15,C17] failed downcast dropped the value");
                 match back_box.downcast::<D>() {
                     Ok(d) => {
-                        assert!(d.0 == 1, "[C17] failed downcast did not give the box back intact");
+                        vassert!(d.0 == 1, "NEVER: [C17] failed downcast did not give the box back intact");
                         drop(d);
-                        assert!(DROPS[1] == 1, "[C15] value not dropped exactly once");
+                        vassert!(DROPS[1] == 1, "NEVER: [C15] value not dropped exactly once");
                     }
-                    Err(_) => assert!(false, "[C17] box returned by a failed downcast lost its type"),
+                    Err(_) => vassert!(false, "NEVER: [C17] box returned by a failed downcast lost its type"),
                 }
             }
         }
@@ -329,25 +326,25 @@ pub fn bx_slices() {
         let b: &Bump = &bump;
         let arr = BBox::new_in([D(0), D(1), D(2)], b);
         let sl: BBox<[D]> = arr.into();
-        assert!(sl.len() == 3 && sl[0].0 == 0 && sl[2].0 == 2 && DROPS[0] + DROPS[1] + DROPS[2] == 0, "[C17] array -> slice conversion changed or dropped elements");
+        vassert!(sl.len() == 3 && sl[0].0 == 0 && sl[2].0 == 2 && DROPS[0] + DROPS[1] + DROPS[2] == 0, "NEVER: [C17] array -> slice conversion changed or dropped elements");
         // wrong length is refused and gives the box back intact
         let r2: Result<BBox<[D; 2]>, BBox<[D]>> = BBox::try_from(sl);
         let sl = match r2 {
             Ok(_) => {
-                assert!(false, "[C15,C17] a boxed slice of 3 elements was accepted as an array of 2 (the third element loses its owner)");
+                vassert!(false, "NEVER: [C15,C17] a boxed slice of 3 elements was accepted as an array of 2 (the third element loses its owner)");
                 return;
             }
             Err(s) => s,
         };
-        assert!(sl.len() == 3 && DROPS[0] + DROPS[1] + DROPS[2] == 0, "[C17] refused conversion changed or dropped elements");
+        vassert!(sl.len() == 3 && DROPS[0] + DROPS[1] + DROPS[2] == 0, "NEVER: [C17] refused conversion changed or dropped elements");
         let r3: Result<BBox<[D; 3]>, BBox<[D]>> = BBox::try_from(sl);
         match r3 {
             Ok(a3) => {
-                assert!(a3[0].0 == 0 && a3[1].0 == 1 && a3[2].0 == 2 && DROPS[0] + DROPS[1] + DROPS[2] == 0, "[C17] slice -> array conversion changed order or dropped elements");
+                vassert!(a3[0].0 == 0 && a3[1].0 == 1 && a3[2].0 == 2 && DROPS[0] + DROPS[1] + DROPS[2] == 0, "NEVER: [C17] slice -> array conversion changed order or dropped elements");
                 drop(a3);
-                assert!(DROPS[0] == 1 && DROPS[1] == 1 && DROPS[2] == 1, "[C15,C17] boxed array did not drop each element exactly once");
+                vassert!(DROPS[0] == 1 && DROPS[1] == 1 && DROPS[2] == 1, "NEVER: [C15,C17] boxed array did not drop each element exactly once");
             }
-            Err(_) => assert!(false, "[C17] a boxed slice of 3 elements was refused as an array of 3"),
+            Err(_) => vassert!(false, "NEVER: [C17] a boxed slice of 3 elements was refused as an array of 3"),
         }
         kani::cover!(true, "REACH: end of harness");
     }
@@ -370,17 +367,17 @@ pub fn bx_from_vec_spare() {
         if which {
             let bx = v.into_boxed_slice();
             let later = b.alloc_slice_fill_copy(8, fill);
-            assert!(bx.len() == 2 && bx[0] == e[0] && bx[1] == e[1], "[C17] boxed slice made from a vector lost its elements after a later allocation");
+            vassert!(bx.len() == 2 && bx[0] == e[0] && bx[1] == e[1], "NEVER: [C17] boxed slice made from a vector lost its elements after a later allocation");
             let lp = later.as_ptr() as usize;
             let bp = bx.as_ptr() as usize;
-            assert!(lp + 32 <= bp || bp + 8 <= lp, "[C01,C17] later allocation overlaps the boxed slice");
+            vassert!(lp + 32 <= bp || bp + 8 <= lp, "NEVER: [C01,C17] later allocation overlaps the boxed slice");
         } else {
             let s = v.into_bump_slice();
             let later = b.alloc_slice_fill_copy(8, fill);
-            assert!(s.len() == 2 && s[0] == e[0] && s[1] == e[1], "[C13] slice made from a vector lost its elements after a later allocation");
+            vassert!(s.len() == 2 && s[0] == e[0] && s[1] == e[1], "NEVER: [C13] slice made from a vector lost its elements after a later allocation");
             let lp = later.as_ptr() as usize;
             let sp = s.as_ptr() as usize;
-            assert!(lp + 32 <= sp || sp + 8 <= lp, "[C01,C13] later allocation overlaps the slice");
+            vassert!(lp + 32 <= sp || sp + 8 <= lp, "NEVER: [C01,C13] later allocation overlaps the slice");
         }
         kani::cover!(which, "REACH: into_boxed_slice");
         kani::cover!(!which, "REACH: into_bump_slice");
